@@ -132,6 +132,25 @@ def cases(tier, rng):
         c.expect = ("agree", [("sub", b"a"), ("sub", b"b")], [1])
         out.append(c)
         n += 1
+    # a CROWD of peers around one whose connection fails: whatever the hash order of the peer table, the failing peer
+    # almost surely has a successor in the walk — every healthy peer must still be told every change
+    for kind in ("BrokenPipe", "ConnectionReset"):
+        for hist in ([("sub", b"a")], [("sub", b"a"), ("sub", b"b"), ("unsub", b"a")]):
+            sc = wg.Script()
+            sc.sock(1, "SUB")
+            for q in range(1, 10):
+                sc.attach(1, q, "PUB", b"p%d" % q)
+                sc.add(f"wire {q}")
+            sc.add(f"wrerr 5 {kind}")
+            for item in hist:
+                add_op(sc, item)
+            healthy = [q for q in range(1, 10) if q != 5]
+            for q in healthy:
+                sc.add(f"wire {q}")
+            c = sc.case(f"crowd-{kind}#{n}", ["crowd"])
+            c.expect = ("agree", hist, healthy)
+            out.append(c)
+            n += 1
     # ordinary back-pressure on one peer while a subscription change is announced
     for l in range(1, 4):
         for h in itertools.product(ALPHA, repeat=l):
